@@ -1881,7 +1881,25 @@ func main() {
 		for i, op := range c.Ops[:nk] {
 			ops[i] = coqOp(op, pl, res.obsB[i])
 			ob[i] = coqObs(res.obsB[i], false, false)
-			op2[i] = coqObs(res.obsP[i], c.Ops[i].K == "commit", true)
+			po := res.obsP[i]
+			if po.resolveKnown && op.K == "commit" {
+				ri := pl.roots[op.ID]
+				roots := append([]rootObs{}, po.roots...)
+				for j := range roots {
+					if roots[j].ver == ri.ver && roots[j].rid == ri.rid && roots[j].has {
+						if po.resolves {
+							roots[j].status = stExact
+						} else {
+							roots[j].status = stNodeMissing
+						}
+					}
+				}
+				po.roots = roots
+				if !po.resolves {
+					po.cont = nil
+				}
+			}
+			op2[i] = coqObs(po, c.Ops[i].K == "commit", true)
 		}
 		if res.cutP >= 0 && res.cutP < len(op2) {
 			op2 = op2[:res.cutP]
